@@ -344,7 +344,7 @@ class Gen:
             cid = self.add("callee", {"src": csrc}, [])
             uses.append(cid)
             dsrc.append(csrc)
-        a = {"src": src, "defs": uses, "opt": "fast" if r.random() < 0.3 else "default", "to_compile": r.random() >= 0.3, "uncompute": True, "via": "qlassf",
+        a = {"src": src, "defs": uses, "opt": "fast" if r.random() < 0.3 else "default", "to_compile": r.random() >= 0.3, "uncompute": True, "via": "callable" if r.random() < 0.2 else "qlassf",
              "params": [[n, t] for n, t in params], "args": [[n, t] for n, t in args], "ret": ret, "tmpl": tmpl, "callee_srcs": dsrc}
         oid = self.add("unbound", a, uses)
         self.unbound.append({"id": oid, "params": params, "seen": []})
@@ -513,6 +513,11 @@ def run_segment(plan, ctx, detail=False, table=None):
         if op["kind"] == "callee":
             return qlassf(a["src"], to_compile=False)
         if op["kind"] == "unbound":
+            if a.get("via") == "callable":
+                # a real Python def in a module file, handed to qlassf as a callable (inspect.getsource path)
+                from m_c10 import _compile_callable
+
+                return _compile_callable(op, dict(a, via="plain", defs=a["defs"]), o, tmpdir)
             return qlassf(a["src"], defs=[o[i] for i in a["defs"]], to_compile=a["to_compile"], bool_optimizer=_opt(a["opt"]))
         if op["kind"] == "bind":
             return o[a["target"]].bind(**{n: to_py(a["values"][n]) for n in a["order"]})
